@@ -7,6 +7,7 @@ class Fragments:
         self.fragments = {}
         self.begin_of_fragments = []
         self.current_offset = 0
+        self.extent = 0
         self.fill = fill
 
     def append(self, string):
@@ -23,8 +24,15 @@ class Fragments:
         #if position in self.fragments:
         #   raise Exception("Collision detected at %08x" % position)
 
-        i = bisect_right(self.begin_of_fragments, position) - 1
         L = len(string)
+        if not L:
+            # An empty chunk occupies no byte: it cannot collide with
+            # anything, it only extends the extent of the buffer.
+            self.extent = max(self.extent, position)
+            self.current_offset = position
+            return
+
+        i = bisect_right(self.begin_of_fragments, position) - 1
         if self.fragments:
             b1 = self.begin_of_fragments[i]
             e1 = b1 + len(self.fragments[b1])
@@ -58,6 +66,7 @@ class Fragments:
             result.append(s)
             begin = offset + len(s)
 
+        result.append(self.fill * (self.extent - begin))
         return b''.join(result)
 
     def __repr__(self):
@@ -104,7 +113,8 @@ class FragmentsOfRegexps(Fragments):
 
         Fragments.insert(self, position, string)
 
-        self.regexp_by_position[position] = regexp
+        if string:
+            self.regexp_by_position[position] = regexp
 
     def assemble_regexp(self):
         begin = 0
